@@ -190,9 +190,12 @@ CLAIMS = {
                  "of valid playlists/tags/values with boundary tokens, truncations, duplicated lines, multi-byte splices, and random texts, through every entry "
                  "point incl. to_string and re-parse; model and library are compared only on 'unwound or returned'; the oracle is 'the library never unwinds, "
                  "aborts or hangs'. PARTIAL: running time (linear / at most quadratic) is not expressible in the model; it is measured on the real library at "
-                 "1x/2x/4x input sizes for four input families and reported in coverage.timing (ratio limits 10 resp. 40)."),
+                 "1x/2x/4x input sizes for four input families as EXECUTED INSTRUCTIONS (valgrind cachegrind, reproducible to < 1 %; 4x the input may take at "
+                 "most 5.5x the instructions for the linear families and 24x when every segment adds a key format) and reported in coverage.timing; the wall "
+                 "clock only bounds the absolute time. This measurement found that the repair a8c4d35 had made to_string() cubic in the number of active key "
+                 "formats (repaired by fix: bf36d8e)."),
         "design_ref": "DESIGN.md §7 C05",
-        "note": "Harness built with overflow-checks and debug-assertions so that arithmetic overflow unwinds. Time bounds are measured, not proved.",
+        "note": "Harness built with overflow-checks and debug-assertions so that arithmetic overflow unwinds. Growth bounds are measured (instruction counts), not proved.",
     },
     "C11": {
         "technique": "Lean 4 proof that the key listing is a canonical form of the RFC-level state + repeated/threaded/multi-process execution of the real parser + static scan for hash-order dependence",
